@@ -156,6 +156,11 @@ func (p *Prog) AllFuncs() []*ssa.Function { return p.fns }
 var curProg *Prog
 var noInline bool
 
+// isDead: fn was a helper that the normalisation inlined everywhere; it is no longer part of the analysed program.
+func (p *Prog) isDead(fn *ssa.Function) bool {
+	return fn != nil && p.Inl != nil && p.Inl.isDead(fn)
+}
+
 func topLevelRaw(fn *ssa.Function) *ssa.Function {
 	for fn.Parent() != nil {
 		fn = fn.Parent()
